@@ -164,6 +164,12 @@ class ClosureV:
 
 
 @dataclass
+class ItemGetterV:
+    """operator.itemgetter(k1, k2, ...) with constant keys"""
+    keys: List[Any]
+
+
+@dataclass
 class GenV:
     """a generator object: its first iterable is evaluated when it is created, everything else when it is consumed, and it can be
     consumed once (a second iteration sees nothing)"""
@@ -391,6 +397,8 @@ class Interp:
                 for a in n.names:
                     nm = a.asname or a.name
                     if target is None:
+                        if n.level == 0 and n.module in ("math", "operator", "itertools", "functools"):
+                            env[nm] = FuncRef(f"<{n.module}>", a.name)
                         continue
                     if target == "a5/core/origin.py" and a.name == "origins":
                         env[nm] = TableV("origins", self.origin_len)
@@ -471,17 +479,21 @@ class Interp:
         nd = len(defaults)
         kwargs = kwargs or {}
         for i, p in enumerate(params):
-            if i < len(args):
+            if i < len(args) and i < n_pos:
                 env[p.arg] = args[i]
             elif p.arg in kwargs:
                 env[p.arg] = kwargs[p.arg]
             else:
-                di = i - (len(params) - nd)
-                if di < 0:
-                    raise core.AnalysisError(f"call of {name} misses argument {p.arg}")
+                if i >= n_pos:
+                    dnode = kw_defaults.get(p.arg)
+                else:
+                    di = i - (n_pos - nd)
+                    dnode = defaults[di] if di >= 0 else None
+                if dnode is None:
+                    raise _Unmodelled(f"call of {name} misses argument {p.arg}")
                 dst = State()
                 dst.env = dict(self.module_env(rel))
-                env[p.arg] = self.eval(defaults[di], dst, rel)
+                env[p.arg] = self.eval(dnode, dst, rel)
         st.frames.append(env)
         depth = len(st.frames)
         if depth > 12:
@@ -623,6 +635,8 @@ class Interp:
             return
         if isinstance(target, (ast.Tuple, ast.List)):
             items = None
+            if isinstance(v, GenV):
+                v = self.materialise(v, state)      # unpacking consumes the generator
             if isinstance(v, TupleV):
                 items = v.items
             elif isinstance(v, ListV) and not v.unknown and all(not s.binders for s in v.segs):
@@ -1061,6 +1075,10 @@ class Interp:
     # -- expressions ----------------------------------------------------------------
     def eval(self, e: ast.expr, state: State, rel: str) -> Any:
         self.tick()
+        if isinstance(e, ast.NamedExpr):
+            v = self.eval(e.value, state, rel)
+            self.assign(e.target, v, state, rel)
+            return v
         if isinstance(e, ast.Constant):
             v = e.value
             if isinstance(v, bool):
@@ -1761,6 +1779,9 @@ class Interp:
             kwargs[k.arg] = self.eval(k.value, state, rel)
         if isinstance(fn, FuncRef):
             return self.call_ref(fn, args, kwargs, state, e, rel)
+        if isinstance(fn, ItemGetterV) and len(args) == 1 and not kwargs:
+            got = [self.subscript(args[0], k, state, e, rel) for k in fn.keys]
+            return got[0] if len(got) == 1 else TupleV(got)
         if isinstance(fn, ClosureV):
             if id(e) in state.call_memo:
                 v = state.call_memo.pop(id(e))
@@ -1807,6 +1828,8 @@ class Interp:
                 return v
         if fn.module == "<operator>" and fn.name in ("index", "pos") and len(args) == 1 and isinstance(args[0], Lin):
             return args[0]
+        if fn.module == "<operator>" and fn.name == "itemgetter" and args and not kwargs and all(isinstance(a, StrV) or (isinstance(a, Lin) and a.is_const()) for a in args):
+            return ItemGetterV(list(args))
         if fn.module.startswith("<"):
             return Unknown(f"{fn.module}.{fn.name}")
         hook = self.call_hooks.get(fn.name)
